@@ -285,7 +285,15 @@ def compare_system(rec, s2, truth, key, carried, tolpos, what):
             if ok:
                 rec.close(tolpos, s2.atoms.pos, exp, what + ': positions', key + ':pos')
         else:
-            same(rec, s2.atoms.view[p], exp, what + f': property {p}', key + f':prop:{p}', rtol=1e-11, atol=1e-13 if p == 'vel_scaled' else 0.0)
+            # a vector property may be stored box-relative ('scaled'): atomman converts it like a position (origin subtracted,
+            # cell matrix inverted, and back), so its rounding error is a few eps x cond(cell) x (|v| + |origin|).  1e-11 |v|
+            # alone was exceeded once in 124 200 cases (one atom with |v| = 0.24 in a cell whose origin is 9e3 away: error
+            # 2.6e-12 = 1.3 eps |origin|) - a false alarm of thorough sweep 5
+            extra = 0.0
+            if p == 'vel':
+                extra = 64 * np.finfo(float).eps * np.linalg.cond(truth['vects']) * (np.abs(np.asarray(exp, float)).max(initial=0.0)
+                                                                                      + np.abs(truth['origin']).max())
+            same(rec, s2.atoms.view[p], exp, what + f': property {p}', key + f':prop:{p}', rtol=1e-11, atol=extra)
 
 
 def run_box(ctx, am, uc, DM):
@@ -378,6 +386,8 @@ def run_atoms_system(ctx, am, uc, DM):
                 rec.sample(dict(obj=obj, enc=enc, form=form, natoms=truth['natoms'], prop_unit=pu, box_unit=box_unit,
                                 symbols=truth['symbols'], masses=truth['masses'], pbc=truth['pbc']))
             key = f'{obj}:{enc}'
+            rec.context = dict(obj=obj, enc=enc, form=form, prop_unit={k_: str(v_) for k_, v_ in pu.items()}, box_unit=box_unit, kind=truth['kind'],
+                               vects=np.asarray(truth['vects']).tolist(), origin=np.asarray(truth['origin']).tolist(), natoms=int(truth['natoms']))
             tolpos = 1e-10 * (truth['L'] + np.abs(truth['origin']).max())
             snapshot = {p: np.array(system.atoms.view[p], copy=True) for p in system.atoms.prop()}
             if obj == 'atoms':
@@ -455,8 +465,10 @@ def run_atoms_system(ctx, am, uc, DM):
                 if not np.array_equal(system.atoms.view[p], v):
                     rec.fail('writing a model leaves the object unchanged', f'{obj}:operand-changed', prop=p)
             rec.check(True, 'writing a model leaves the object unchanged', f'{obj}:operand-changed')
+            rec.context = None
     finally:
         import shutil
+        rec.context = None
         shutil.rmtree(tmpdir, ignore_errors=True)
     for name, mn in (('monitor:system-roundtrip', 100), ('monitor:atoms-roundtrip', 50), ('class:scaled-property', 10),
                      ('class:partial-masses', 5), ('class:first-mass-missing', 3), ('class:missing-symbol', 10),
